@@ -471,8 +471,10 @@ def finish(ctx: Ctx) -> int:
     for k in known_keys:
         if not any(v["key"] == k for v in ctx.violations):
             ctx.notes.append(f"listed finding {k} did not reproduce in this run")
-    rdir = VERIF / "replays"
-    rdir.mkdir(exist_ok=True)
+    # replays of runs against /repo live in /verif/replays; a run against another tree keeps its own beside its
+    # build directory, so that concurrent runs of one property against different trees never share a file
+    rdir = VERIF / "replays" if str(ctx.repo) == "/repo" else ctx.bdir.parent / "replays"
+    rdir.mkdir(parents=True, exist_ok=True)
     exit_code = 0
     broken = ctx.broken()
     for i, v in enumerate(unknown):
